@@ -92,6 +92,17 @@ func (x *Exec) call(s *State, f *Frame, ins *ssa.Call) (stepResult, []*State, st
 		outs := in(x, s, args, ins)
 		return x.finishCall(s, f, ins, outs)
 	}
+	if len(s.Frames) >= 12 && s.Model == nil && !x.Concrete {
+		// deep recursion on an arm of unknown feasibility: settle it before going deeper
+		res, m := x.pcSat(s)
+		if res == smt.Unsat {
+			x.LazyDropped++
+			return stepDead, nil, stopPoint{}
+		}
+		if res == smt.Sat {
+			s.Model = m
+		}
+	}
 	if name == "html.UnescapeString" {
 		// a pure function: reuse the result of an earlier call on the very same bytes
 		if str, ok := args[0].(Str); ok {
